@@ -1088,3 +1088,34 @@ fn is_filesystem_safe(column_name: &str) -> bool {
             .chars()
             .all(|c| (c.is_alphanumeric() && c.is_lowercase()) || c == '_')
 }
+
+// verification hooks: read-only accessors (add-only, feature `verif`)
+#[cfg(feature = "verif")]
+impl InnerLocustDB {
+    pub fn verif_storage(&self) -> Option<&Arc<Storage>> {
+        self.storage.as_ref()
+    }
+
+    /// accounted bytes of unflushed WAL segments
+    pub fn verif_wal_size(&self) -> u64 {
+        *self.wal_size.0.lock().unwrap()
+    }
+
+    pub fn verif_tables(&self) -> Vec<Arc<Table>> {
+        self.tables.read().unwrap().values().cloned().collect()
+    }
+}
+
+// verification hooks: wrappers for private sub-partitioning functions (add-only, feature `verif`)
+#[cfg(feature = "verif")]
+pub fn verif_subpartition(
+    opts: &Options,
+    columns: Vec<Arc<Column>>,
+) -> (Vec<SubpartitionMetadata>, Vec<Vec<Arc<Column>>>) {
+    subpartition(opts, columns)
+}
+
+#[cfg(feature = "verif")]
+pub fn verif_is_filesystem_safe(column_name: &str) -> bool {
+    is_filesystem_safe(column_name)
+}
